@@ -237,6 +237,9 @@ def stepLine (st : State) (toks : List String) : State × String :=
   | ["rp.alloc", script] =>
     let l := if script == "-" then [] else script.toList.map (· == 'f')
     ({ st with p := { st.p with al := { st.p.al with script := l } } }, "ok")
+  | ["rp.sinkbusy", _k, _e] =>
+    -- over TCP every octet goes out through the retrying chunk put: a sink that is busy once is invisible on the wire
+    (st, "ok")
   | ["rp.sinkmode", m] =>
     -- the style of the sink driver (octet / chunk:k) is invisible on the wire
     if m == "octet" || (m.startsWith "chunk:" && ((m.drop 6).toString.toNat?).isSome) then (st, "ok") else (st, "bad-op")
